@@ -55,7 +55,8 @@ Definition hdr_post (c0 : sconn) (n0 : N) (b0 : bytes) (fr : sframe) (c' : sconn
   exists fs n' carry', ref_run dec_field (eh_of fr) (sc_dec c0) n0 b0 fs (sc_dec c') n' carry' /\
     eff c0 c' /\
     (sc_sl_done c' = false -> HG c' (next_cur fr) n' carry' /\ oth (sf_sid fr) c0 c' /\
-                              own_post (entry_before c0 fr) fr fs carry' c' /\ ids_post c0 fr c').
+                              own_post (entry_before c0 fr) fr fs carry' c' /\ ids_post c0 fr c' /\
+                              sc_highestID c0 <= sc_highestID c' /\ sf_sid fr <= sc_highestID c').
 
 Lemma hdr_post_pre c1 c2 n0 b0 fr c' : eff c1 c2 -> sc_dec c2 = sc_dec c1 -> oth (sf_sid fr) c1 c2 ->
   entry_before c2 fr = entry_before c1 fr -> ids_post c1 fr c2 -> sc_highestID c1 <= sc_highestID c2 ->
@@ -63,8 +64,8 @@ Lemma hdr_post_pre c1 c2 n0 b0 fr c' : eff c1 c2 -> sc_dec c2 = sc_dec c1 -> oth
 Proof.
   intros E D O EB IP HL (fs & n' & carry' & R & E2 & G). exists fs, n', carry'. rewrite <- D.
   split; [exact R|]. split; [eapply eff_trans; eassumption|].
-  intro Hd. destruct (G Hd) as (G1 & G2 & G3 & G4). split; [exact G1|]. split; [eapply oth_trans; eassumption|].
-  split; [rewrite <- EB; exact G3|].
+  intro Hd. destruct (G Hd) as (G1 & G2 & G3 & G4 & G5 & G6). split; [exact G1|]. split; [eapply oth_trans; eassumption|].
+  split; [rewrite <- EB; exact G3|]. split; [|split; [lia | exact G6]].
   intros x Ix. destruct (G4 x Ix) as [I2|[I2 I3]]; [|right; split; [exact I2 | lia]].
   apply in_map_iff in I2. destruct I2 as (y & Ey & Iy). rewrite <- Ey. apply IP. exact Iy.
 Qed.
@@ -158,7 +159,7 @@ Proof.
       * eapply HInv_dd; [exact H | exact HF|]. destruct (eh_of fr); [congruence | auto].
       * unfold next_cur. destruct (eh_of fr); [congruence|]. intros _. unfold carry_at. sc_cbn.
         rewrite N.eqb_refl. reflexivity.
-      * split; [apply oth_same_strms; reflexivity|]. split; [|apply ids_post_same; reflexivity].
+      * split; [apply oth_same_strms; reflexivity|]. split; [|split; [apply ids_post_same; reflexivity | sc_cbn; split; [lia | exact LE]]].
         intros y Iy Ey. exfalso. apply NI. rewrite <- Ey. apply in_map. exact Iy.
 Qed.
 
@@ -313,7 +314,7 @@ Proof.
     exists fs, n', carry'. split; [|split].
     + rewrite (hmvs_dec _ _ _ _ _ M). rewrite EH. exact R.
     + eapply eff_trans; [|eapply hmvs_eff; exact M]. apply eff_quiet; reflexivity.
-    + intro Hd'. unfold next_cur. rewrite EH. split; [split|split; [|split]].
+    + intro Hd'. unfold next_cur. rewrite EH. split; [split|split; [|split; [|split]]].
       * eapply hmvs_HInv; [exact M | exact HV | exact Hd'].
       * intros _. eapply hmvs_carry; [exact M | exact HV | exact Hd' | exact CV].
       * eapply oth_trans; [|eapply hmvs_other; [exact M | exact Hd']].
@@ -340,6 +341,8 @@ Proof.
         rewrite GH, GR, EH. cbn [s3 set_hdr st_recvBody]. split; [apply get_hdr_set_hdr | reflexivity].
       * intros x Ix. left. pose proof (hmvs_ids _ _ _ _ _ M Hd' x Ix) as I2.
         rewrite sc_strms_put, strms_put_ids in I2. exact I2.
+      * pose proof (hmvs_highest _ _ _ _ _ M Hd') as HM. replace (sc_highestID (put c3 s3)) with (sc_highestID c2) in HM by reflexivity.
+        destruct (IDS s Is) as [LS _]. split; lia.
   - (* the block is complete *)
     set (s3 := set_headers_finished (set_hdr s (hd_set_prev hF [])) true) in *. set (c3 := upd_dec c2 d') in *.
     assert (R0 := rank_ok_unanswered _ _ _ Ps RO).
@@ -359,7 +362,7 @@ Proof.
     exists fs, n', []. split; [|split].
     + rewrite (hmvs_dec _ _ _ _ _ M). rewrite EH. exact R.
     + eapply eff_trans; [|eapply hmvs_eff; exact M]. apply eff_quiet; reflexivity.
-    + intro Hd'. unfold next_cur. rewrite EH. split; [split; [|congruence]|split; [|split]].
+    + intro Hd'. unfold next_cur. rewrite EH. split; [split; [|congruence]|split; [|split; [|split]]].
       * eapply hmvs_HInv; [exact M | exact HV | exact Hd'].
       * eapply oth_trans; [|eapply hmvs_other; [exact M | exact Hd']].
         eapply oth_trans; [apply (oth_same_strms _ _ c2 c3); reflexivity | apply oth_put; exact Es].
@@ -383,6 +386,8 @@ Proof.
         rewrite GH, GR, EH. split; [apply get_hdr_finished | reflexivity].
       * intros x Ix. left. pose proof (hmvs_ids _ _ _ _ _ M Hd' x Ix) as I2.
         rewrite sc_strms_put, strms_put_ids in I2. exact I2.
+      * pose proof (hmvs_highest _ _ _ _ _ M Hd') as HM. replace (sc_highestID (put c3 s3)) with (sc_highestID c2) in HM by reflexivity.
+        destruct (IDS s Is) as [LS _]. split; lia.
   - (* a stream error at a field: the stream is reset and closed, the rest of the block has been decoded *)
     set (s3 := set_hdr s hF) in *.
     set (c3 := upd_discard (upd_dec c2 d') (if eh_of fr then 0 else st_id s) carry' n') in *.
@@ -445,7 +450,9 @@ Proof.
         unfold carry_at, cc. rewrite E1, E2, E3. unfold c4, c3. sc_rw. sc_cbn. rewrite Es, N.eqb_refl. reflexivity. }
     destruct (wc && can_close_after_goaway cc)%bool.
     + split; [rewrite sc_dec_brk, DC; exact R | split; [exact EF | intro Hd'; discriminate Hd']].
-    + split; [cbn [cont fst]; rewrite DC; exact R | split; [exact EF | intros _; split; [exact HC|split; [|split]]]].
+    + split; [cbn [cont fst]; rewrite DC; exact R | split; [exact EF | intros _; split; [exact HC|split; [|split; [|split]]]]].
+      4:{ cbn [cont fst]. replace (sc_highestID cc) with (sc_highestID c2) by (unfold cc, c4, c3; sc_rw; reflexivity).
+          destruct (IDS s Is) as [LS _]. split; lia. }
       3:{ cbn [cont fst]. intros y Iy. left. unfold cc in Iy. rewrite sc_strms_close_stream in Iy. apply strms_del_In in Iy.
           apply (in_map st_id) in Iy. rewrite sc_strms_put, strms_put_ids in Iy. unfold c4, c3 in Iy.
           rewrite sc_strms_write_reset in Iy. sc_cbn_in Iy. exact Iy. }
